@@ -34,6 +34,10 @@ Init == /\ sn = [i \in Ids |-> "none"] /\ sr = [i \in Ids |-> "absent"]
         /\ ctl = [steps |-> 0, ndisc |-> 0, bad |-> FALSE]
         /\ hist = <<>>
 
+\* every step advances its endpoint by the send rate of the netcode layer (250 ms), so that every update emits what the
+\* endpoint's state calls for (request / response / keep-alive); the exported configuration uses a 5 s time-out, longer than
+\* any modelled fault phase (MaxSteps steps)
+StepDt == 250
 Can == ctl.steps < MaxSteps
 Rec(s) == hist' = IF Export THEN hist \o s ELSE hist
 Tick == ctl' = [ctl EXCEPT !.steps = @ + 1]
@@ -65,7 +69,7 @@ ClientStep(i, pass) ==
                /\ cn' = [cn EXCEPT ![i] = st1]
                /\ up' = [up EXCEPT ![i] = @ \cup out]
     /\ down' = [down EXCEPT ![i] = {}]
-    /\ Rec(<<[a |-> "relay", c |-> i, dir |-> "down", ops |-> <<IF pass THEN "pass" ELSE "drop">>], [a |-> "cstep", c |-> i, dt |-> 100]>>)
+    /\ Rec(<<[a |-> "relay", c |-> i, dir |-> "down", ops |-> <<IF pass THEN "pass" ELSE "drop">>], [a |-> "cstep", c |-> i, dt |-> StepDt]>>)
     /\ Tick /\ UNCHANGED <<sn, sr, evq, seen, asked>>
 
 (***************************************************************************)
@@ -73,17 +77,18 @@ ClientStep(i, pass) ==
 (***************************************************************************)
 \* one id: datagrams processed, then update_client, then the renet disconnections are pushed down
 ServerOne(i, arrived, s) ==
-    LET \* process_packet results
-        n1 == IF s.sn[i] = "conn" /\ "disconnect" \in arrived THEN "none"
-              ELSE IF s.sn[i] = "pending" /\ "resp" \in arrived THEN "conn"
-              ELSE IF s.sn[i] = "none" /\ "req" \in arrived THEN "pending"
-              ELSE s.sn[i]
-        connected == s.sn[i] # "conn" /\ n1 = "conn"
-        peerLeft == s.sn[i] = "conn" /\ n1 = "none"
+    LET \* process_packet results, in arrival order: a client sends its disconnect datagram after everything else, so a
+        \* response and a disconnect that arrive together first complete the handshake and then end the session
+        n1a == IF s.sn[i] = "pending" /\ "resp" \in arrived THEN "conn"
+               ELSE IF s.sn[i] = "none" /\ "req" \in arrived THEN "pending"
+               ELSE s.sn[i]
+        connected == s.sn[i] # "conn" /\ n1a = "conn"
+        n1 == IF n1a = "conn" /\ "disconnect" \in arrived THEN "none" ELSE n1a
+        peerLeft == n1a = "conn" /\ n1 = "none"
         \* add_connection / remove_connection with their events
-        r1 == IF connected THEN "conn" ELSE IF peerLeft THEN "absent" ELSE s.sr[i]
-        ev1 == IF connected THEN <<[type |-> "Connected", id |-> i]>>
-               ELSE IF peerLeft /\ s.sr[i] # "absent" THEN <<[type |-> "Disconnected", id |-> i]>> ELSE <<>>
+        r1 == IF peerLeft THEN "absent" ELSE IF connected THEN "conn" ELSE s.sr[i]
+        ev1 == (IF connected THEN <<[type |-> "Connected", id |-> i]>> ELSE <<>>)
+               \o (IF peerLeft /\ (connected \/ s.sr[i] # "absent") THEN <<[type |-> "Disconnected", id |-> i]>> ELSE <<>>)
         \* for disconnection_id in server.disconnections_id(): netcode.disconnect -> ClientDisconnected -> remove_connection
         push == r1 = "disc"
         n2 == IF push THEN "none" ELSE n1
@@ -110,7 +115,7 @@ ServerStep(pass) ==
     /\ Rec([k \in 1..Cardinality(Ids) |->
               LET i == CHOOSE x \in Ids : Cardinality({y \in Ids : y < x}) = k - 1 IN
               [a |-> "relay", c |-> i, dir |-> "up", ops |-> <<IF pass[i] THEN "pass" ELSE "drop">>]]
-           \o <<[a |-> "sstep", dt |-> 100]>>)
+           \o <<[a |-> "sstep", dt |-> StepDt]>>)
     /\ Tick /\ UNCHANGED <<cn, cr, seen, asked>>
 
 \* the application reads one server event: they must alternate per id
@@ -152,7 +157,7 @@ OnlyAsked == \A i \in Ids : (i \notin asked) => (cn[i] # "disc" /\ cr[i] # "disc
 
 Done == ctl.steps = MaxSteps
 ExportInv == (Export /\ Done /\ RandomElement(1..ExportOneIn) = 1) => PrintT(<<"PATH", ToJson([done |-> TRUE, steps |-> hist])>>)
-ExportCfg == PrintT(<<"CFG", ToJson([clients |-> <<1, 2>>, max_clients |-> 4, timeout_s |-> 2, allow_timeouts |-> FALSE])>>)
+ExportCfg == PrintT(<<"CFG", ToJson([clients |-> <<1, 2>>, max_clients |-> 4, timeout_s |-> 5, allow_timeouts |-> FALSE])>>)
 ASSUME ExportCfg
 View == <<sn, sr, cn, cr, up, down, evq, seen, asked, ctl>>
 =============================================================================
